@@ -27,16 +27,16 @@ Theorem invalid_rejected : forall s op, invalid_core s op = true ->
   | None => guard s op = VIgnore
   end.
 Proof.
-  intros s op H. destruct op as [id cap dr|id cap|id|id|id|id q u f ng ph hd tm tx|id|r|app key ty| | | | |]; cbn in H; try discriminate; cbn [answer_of].
+  intros s op H. destruct op as [id cap dr|id cap|id|id|id|id q u f ng ph hd tm tx|id|r|app key ty| | | | |];
+    unfold invalid_core in H; try discriminate; cbn [answer_of].
   - (* OpNodeAdd *) unfold guard, guard_gen, node_add_guard. now rewrite H.
   - unfold guard, guard_gen, node_upd_guard. apply negb_true_iff in H. now rewrite H.
   - unfold guard, guard_gen, node_upd_guard. apply negb_true_iff in H. now rewrite H.
   - unfold guard, guard_gen, node_upd_guard. apply negb_true_iff in H. now rewrite H.
   - unfold guard, guard_gen, node_upd_guard. apply negb_true_iff in H. now rewrite H.
-  - (* OpAppAdd *) unfold guard, guard_gen, app_add_guard_gen. apply orb_true_iff in H as [H|H].
-    + destruct (ng && negb f); [reflexivity|]. destruct (ng && f && negb true); [rewrite andb_false_r in *|]; rewrite ?H; try reflexivity.
-      now rewrite andb_false_r.
-    + now rewrite H.
+  - (* OpAppAdd *) unfold guard, guard_gen, app_add_guard_gen.
+    destruct (ng && negb f) eqn:E1; [reflexivity|]. rewrite orb_false_r in H. rewrite H.
+    cbn [negb]. rewrite andb_false_r. reflexivity.
   - (* OpAppRemove *) unfold guard, guard_gen, app_remove_guard. apply negb_true_iff in H. now rewrite H.
   - (* OpAlloc *)
     unfold guard, guard_gen, alloc_guard_gen.
